@@ -122,3 +122,29 @@ def check_lockset(ctx: Ctx, cls: Cls, lock_field: str, guarded: set[str], rr: Ru
                 rr.ok()
             else:
                 rr.fail(f.qual, f"accesses guarded field {fld} outside `with {lock_field}`", ctx.loc(f, node))
+
+
+def check_lock_discipline(ctx: Ctx, cls: Cls, rr: RuleResult) -> None:
+    """Locks are taken with `with` (exception-safe); a bare acquire() must sit directly before a try whose finally releases."""
+    for f in cls.all_defs:
+        if isinstance(f.node, ast.Lambda):
+            continue
+        for n in own_nodes(f.node):
+            if isinstance(n, ast.Call) and isinstance(n.func, ast.Attribute) and n.func.attr == "acquire" and "lock" in unparse(n.func.value).lower():
+                rr.inst()
+                lock = unparse(n.func.value)
+                stmt: Any = n
+                while stmt is not None and not isinstance(stmt, ast.stmt):
+                    stmt = getattr(stmt, "_parent", None)
+                parent = getattr(stmt, "_parent", None)
+                ok = False
+                body = getattr(parent, "body", None)
+                if isinstance(body, list) and stmt in body:
+                    i = body.index(stmt)
+                    if i + 1 < len(body) and isinstance(body[i + 1], ast.Try):
+                        fin = body[i + 1].finalbody
+                        ok = any(isinstance(x, ast.Call) and isinstance(x.func, ast.Attribute) and x.func.attr == "release" and unparse(x.func.value) == lock for s in fin for x in ast.walk(s))
+                if ok:
+                    rr.ok({"fn": f.qual, "lock": lock, "idiom": "acquire + try/finally release"})
+                else:
+                    rr.fail(f.qual, f"{lock}.acquire() is not followed by try/finally release: an exception in the critical section leaves the lock held and every later operation blocks", ctx.loc(f, n))
